@@ -17,14 +17,8 @@ from vlib import common as C
 FLAVOR = 'c15asan'
 SAN_ENV = {'ASAN_OPTIONS': 'detect_leaks=1:halt_on_error=1:abort_on_error=0:allocator_may_return_null=1',
            'UBSAN_OPTIONS': 'print_stacktrace=1:halt_on_error=0'}
-LIBFRAME = r'#\d+ 0x[0-9a-f]+ in ((?:Avoid|vpsc|cola|topology|dialect|straightener|shortest_paths|hull|project|bundles)::[\w:~]+)[^\n]*/(\w+\.(?:cpp|h)):'
-# frames of our own harness code: `main` or a function defined in /verif/harness
-HARNESS_FRAME = r'/verif/harness/'
-
-
-def LIBFRAME_KEY(blk):
-    fr = re.search(LIBFRAME, blk)
-    return (fr.group(2), fr.group(1)) if fr else ('~', '~')
+# innermost frame whose source file belongs to one of the five libraries (whatever the namespace): function name, file name
+LIBFRAME = r'#\d+ 0x[0-9a-f]+ in ([^\s(]+)[^\n]*?/cola/lib\w+/(\w+\.(?:cpp|h)):'
 
 
 def norm_expr(e):
@@ -86,6 +80,9 @@ def fingerprint(rc, out, err):
         return 'terminate:' + (t.group(1) if t else '?')
     if rc == 124:
         return 'timeout'
+    h = re.search(r'^HANG (\S+)', out, re.M)            # CPU-time watchdog of the c07 / c08 harnesses (exit 3)
+    if h:
+        return 'hang:' + h.group(1)
     if child and rc == 0:
         return 'child:' + re.sub(r'\s+', '_', re.sub(r'^ENDSCENE \S+ ', '', child.group(0)))[:40]
     return 'rc=%d' % rc
@@ -111,6 +108,12 @@ def refine(job, fp, out, err):
         return 'delegated:C13:' + fp
     if u == 'vpsc.solver' and fp.startswith('leak:blocks.cpp:vpsc::Blocks::') and job.opts.get('solver') == 'Solver' and 'throw_unsatisfied' in out:
         return 'leak:solve_VPSC.cpp:vpsc::Solver::satisfy:order_list_after_unsatisfied_throw'
+    if u == 'cola.cc' and job.opts.get('c07_divergence_domain') and \
+            fp in ('assert:rectangle.h:fabs(width()-w)<1e-9', 'assert:rectangle.h:fabs(height()-h)<1e-9', 'hang:majorization-run'):
+        # C07's classifier of its known finding, evaluated on the failing case (c07.majorization_divergence_domain)
+        return 'majorization_fixedrelative_overlap_divergence'
+    if u in ('cola.cc', 'cola.nonoverlap') and fp == 'hang:makeFeasible' and job.opts.get('overlap') and job.opts.get('makefeasible'):
+        return 'makefeasible_hang_unsat_nonoverlap'
     if u == 'cola.cc' and fp == 'leak:gradient_projection.cpp:cola::GradientProjection::destroyVPSC' and 'Majorization' in str(mode):
         return fp + ':unsatisfiable_infos_of_earlier_iterations'
     return fp
@@ -147,7 +150,7 @@ def run_job(j):
 def unit_rect(rng, n):
     """libvpsc: removeoverlaps(rs, fixed, thirdPass) with thirdPass in {false, true}, fixed sets empty / some / all,
     generateX/YConstraints with and without neighbour lists; degenerate inputs (empty set, one rectangle, identical
-    rectangles, zero-size rectangles)"""
+    rectangles, sub-unit rectangles)"""
     from checks import rectlib as L
     exe = C.build_harness('c09_rect', ['libvpsc'], FLAVOR)
     jobs = []
@@ -235,11 +238,12 @@ def unit_cola_cc(rng, n):
         elif t in (1, 2, 3):
             case = c07.gen_layout_case(r, k)
             jobs.append(Job('cola.cc', 'layout#%d' % k, exe, ['layout', '20'], c07.case_line(case, layout=True) + '\n',
-                            {'mode': c07.mode_name(case['mode']), 'overlap': bool(case.get('overlap')), 'neighbour': bool(case.get('neighbour'))}))
+                            {'mode': c07.mode_name(case['mode']), 'overlap': bool(case.get('overlap')), 'neighbour': bool(case.get('neighbour')),
+                             'c07_divergence_domain': bool(c07.majorization_divergence_domain(case)), 'makefeasible': bool(c07.m_mf(case['mode']))}))
         elif t == 4:
             case = c07.gen_rollback_case(r, k // 8)
             jobs.append(Job('cola.cc', 'rollback#%d' % k, exe, ['layout', '20'], c07.case_line(case, layout=True) + '\n',
-                            {'mode': c07.mode_name(case['mode']), 'overlap': bool(case.get('overlap'))}))
+                            {'mode': c07.mode_name(case['mode']), 'overlap': bool(case.get('overlap')), 'makefeasible': bool(c07.m_mf(case['mode']))}))
         elif t in (5, 6):
             case = c07.gen_single_axis_case(r, k // 8 + (4 if t == 6 else 0))
             jobs.append(Job('cola.cc', 'single-axis#%d' % k, exe, ['layout', '20'], c07.case_line(case, layout=True) + '\n',
@@ -451,9 +455,9 @@ def build_all():
         f(rng.fork(), 1)
 
 
-def sweep(res, tier, rng, known_elsewhere, only=None):
-    """run every unit; report failures through res.violation (fingerprint = '<kind>:<file>:<site>');
-    returns the coverage dict for the evidence"""
+def sweep(res, tier, rng, reports, only=None):
+    """run every unit; every distinct (unit, fingerprint) failure is appended to `reports` as (replay object, fingerprint, unit,
+    no_input) - the caller emits them (unknown ones first); returns the coverage dict for the evidence"""
     jobs = []
     build_errors = {}
     try:
@@ -494,8 +498,6 @@ def sweep(res, tier, rng, known_elsewhere, only=None):
             if (j.unit, fp) in seen:
                 continue
             seen[(j.unit, fp)] = 1
-            if known_elsewhere(fp, j.unit):
-                continue
             if fp.startswith('leak:'):
                 # the part of the report that belongs to this site
                 blks = [bl for bl in re.split(r'\n(?=(?:Direct|Indirect) leak of)', err) if re.match(r'(Direct|Indirect) leak', bl)]
@@ -507,7 +509,7 @@ def sweep(res, tier, rng, known_elsewhere, only=None):
             obj = j.replay()
             obj.update({'what': 'sanitizer report / failed assertion / leak on a valid input of another property\'s harness',
                         'report': rep, 'stdout_tail': out[-300:]})
-            res.violation(obj, fingerprint=fp)
+            reports.append((obj, fp, j.unit, False))
     # bounds on what is left to the owning properties
     for unit, lst in delegated.items():
         n_in = sum(1 for j in jobs if j.unit == unit and j.opts.get('mode') in ('scenes', 'layout'))
@@ -518,14 +520,14 @@ def sweep(res, tier, rng, known_elsewhere, only=None):
             obj = j.replay()
             obj.update({'what': '%d of %d %s inputs trip a self-check assertion of the library (bound %d): far above the rate of the known findings of the '
                                 'owning property' % (len(lst), n_in, unit, bound), 'sites': sorted(set(f for f, _ in lst))})
-            res.violation(obj, fingerprint='assertion_rate:' + unit)
+            reports.append((obj, 'assertion_rate:' + unit, unit, False))
     n_hola = sum(1 for j in jobs if j.unit == 'dialect.hola')
     if n_hola and len(hola_asserts) > max(2, n_hola // 12):
-        res.violation({'what': '%d of %d doHOLA runs end in a failed assertion (C14 bounds its blanket known finding at 3%%)' % (len(hola_asserts), n_hola),
-                       'sites': sorted(set(hola_asserts))}, fingerprint='assertion_rate:dialect.hola', no_input=True)
+        reports.append(({'what': '%d of %d doHOLA runs end in a failed assertion (C14 bounds its blanket known finding at 3%%)' % (len(hola_asserts), n_hola),
+                         'sites': sorted(set(hola_asserts))}, 'assertion_rate:dialect.hola', None, True))
     for u in per_unit.values():
         u['wall_s'] = round(u['wall_s'], 1)
         u['options'] = dict(u['options'])
     for name, e in build_errors.items():
-        res.violation({'what': 'harness of unit %s does not build against this tree' % name, 'error': e}, no_input=True)
+        reports.append(({'what': 'harness of unit %s does not build against this tree' % name, 'error': e}, None, None, True))
     return {'units': per_unit, 'jobs': len(jobs), 'unit_docs': {name: (f.__doc__ or '').strip() for name, (f, a, b) in UNITS.items()}}
